@@ -66,7 +66,7 @@ def corr_doc(ctype, refs, op="gte", count=2, timespan="5m", group_by=("user",), 
         if needs_field(ctype):
             cond["field"] = field
         if ctype == "value_percentile":
-            cond["percentile"] = percentile or 95
+            cond["percentile"] = 95 if percentile is None else percentile
         c["condition"] = cond
     if aliases:
         c["aliases"] = aliases
@@ -287,6 +287,13 @@ def space_i():
                 for cnt in (1, 5, 90):
                     for mode in ("passthrough", "mapping", "seconds"):
                         yield docs, corr_doc(t, ["rule1", "rule2"], op=op, count=cnt, timespan=f"{cnt}{unit}"), Kc(typing=True, timespan=mode), "none", f"{t}/{op}/{cnt}{unit}/{mode}"
+    # boundary values of the numeric elements
+    for op in OPS:
+        for pct in (0, 1, 50, 100):
+            yield docs, corr_doc("value_percentile", ["rule1", "rule2"], op=op, count=0, percentile=pct), Kc(typing=True), "none", f"value_percentile/{op}/pct{pct}/count0"
+        for t in TYPES:
+            if t not in ("temporal", "temporal_ordered"):
+                yield docs, corr_doc(t, ["rule1", "rule2"], op=op, count=0), Kc(typing=True), "none", f"{t}/{op}/count0"
 
 
 REFSETS = [
